@@ -450,10 +450,20 @@ def run(chk):
         fr = p.method(CIL, "from", trait="core::convert::From")
         if fr is not None:
             chk.touched(fr)
-            rt = flow.simplify_term(flow.Terms(p, fr).place(0, (), fr.return_blocks()[0], "t"))
-            v = dict(rt[3]).get("0") if rt[0] == "agg" else None
-            ok = v is not None and is_call(v, "cmp::max") and ("const", mn) in v[2] and any(is_call(x, "cmp::min") and ("const", mx) in x[2] and ("param", 1) in x[2] for x in v[2])
-            chk.ob("R8 id length", "R8|From<u8>-clamps", bool(ok), where(fr), "From<u8> = %s" % flow.term_str(rt))
+            # whatever the spelling (min/max, an if-chain, clamp): every value that is wrapped lies in [MIN, MAX] — read from
+            # the interval analysis at each construction site — and the argument itself is among them
+            from . import intervals as _iv
+            ivf = _iv.Intervals(p, fr)
+            Tf8 = flow.Terms(p, fr)
+            sites8 = find_aggs(fr, "CredentialIdLength")
+            rng, uses_arg = [], False
+            for b8, i8, rv8 in sites8:
+                st8 = ivf.at(b8, i8)
+                r8 = ivf.iv_operand(st8, rv8["ops"][0]) if st8 is not None else None
+                rng.append(r8)
+                uses_arg = uses_arg or flow.term_contains(flow.simplify_term(Tf8.operand(rv8["ops"][0], b8, i8)), lambda x: x == ("param", 1))
+            ok = bool(sites8) and mn is not None and mx is not None and all(r8 is not None and r8.lo >= mn and r8.hi <= mx for r8 in rng) and uses_arg
+            chk.ob("R8 id length", "R8|From<u8>-clamps", bool(ok), where(fr), "wrapped values lie in %s (bounds [%s, %s]); the argument is one of them: %s" % ([str(r8) for r8 in rng], mn, mx, uses_arg))
         rz = p.method(CIL, "randomized")
         if rz is not None:
             chk.touched(rz)
